@@ -17,7 +17,7 @@ CFG = {'streams': [{'name': 'C12',
                             '(fresh hash seeds) regenerating the same case from the same generator state reports another hash of (load '
                             'observation, 6 isolated runs); 32 = the text inside CheckError::UnusedCaptures(..) is not Model/HashOrder.v '
                             'unused_message of the generated capture names (evaluated by coqc); 64 = a worker thread died'}],
- 'rule': '60% of the texts also declare a global with a default that a stanza reads (40% of those supply a value); one case = one DSL text x three generated Python sources (1-6 statements or corpus; the third with 1-2 injected syntax faults in 30%). '
+ 'rule': 'every observation of a run also carries the UNSORTED transcript of File::try_visit_matches in the same mode (matches in visiting order, capture_names() and named_captures() in the order the Match lists them); 60% of the texts also declare a global with a default that a stanza reads (40% of those supply a value); one case = one DSL text x three generated Python sources (1-6 statements or corpus; the third with 1-2 injected syntax faults in 30%). '
          'Texts: 28% programs of the typed generator of gen.rs over the whole statement/expression grammar (globals, inherit, shorthands, scan, '
          'scoped variables; redrawn up to 5x until the loader accepts), 22% exactly one unused-captures fault (query shapes with 3/4/5/6/8 captures '
          'named from a pool of 26 + 3 underscore names, shuffled, 0/1/2/all used, between 0-3 known-good stanzas), 12% two to four scoped '
